@@ -12,6 +12,59 @@ COMMON_NOTE = ('Trusted base: Coq 8.16.1 kernel and vm_compute (no native_comput
                'Gallina model, tied to /repo on every run by regenerated tables and a differential run.')
 
 CLAIMS = {
+    'C09': dict(
+        technique='Rocq proof of what copy() keeps, of the freshness of the copies and of the shape of the new document '
+                  '(partial) + extracted-model/libadm differential run comparing copies with originals and mutating either side',
+        text='Partial. Proved (Props/Properties_C09.v, Heap/Copy.v) for all inputs: copy() keeps the concrete kind (HOA), ID, '
+             'type, blocks, times and parameters and drops parent and references; every copy made by deepCopy is a handle '
+             'that was no element before (no object is shared), the copies are pairwise distinct; the new document lists '
+             'the copies of the members in the original order and carries the version; a failed copy leaves the state '
+             'unchanged. Not proved: that the re-created reference lists are the images of the originals and independence '
+             'under later mutation; these are decided by the differential run: copies compared with originals element by '
+             'element under the handle renaming, XML of both, parents, then mutation histories on either side.',
+        design='8 C09'),
+    'C11': dict(
+        technique='Rocq proof of block ID assignment / validation and of type consistency call by call (partial: not yet as '
+                  'an invariant of histories) + differential run with the ID-shape oracle on every snapshot',
+        text='Partial. Proved (Props/Properties_C11.v, Heap/BlockIds.v) for all inputs: a block without ID gets the channel '
+             'format\'s type and value and the next counter (1 for the first); an explicit block ID with another type, value '
+             'or a counter that does not continue the numbering throws and changes nothing; adding keeps labelling and '
+             'consecutive numbering of the vector; set(AudioChannelFormatId) moves the value of all block IDs and nothing '
+             'else; reassignBlockFormats labels and numbers the own-type vector from 1 keeping times and payloads; pack and '
+             'channel formats only get IDs of their own type descriptor; a track format without ID takes type and value '
+             'of its stream format. That every reachable state satisfies the labelling is explored on libadm\'s snapshots.',
+        design='8 C11'),
+    'C14': dict(
+        technique='Rocq proof that the steps of reassignIds change IDs only and that the numbering loop is dense (partial) + '
+                  'differential run with canonical-numbering, unchanged-reserved/silent and idempotence oracles',
+        text='Partial. Proved (Props/Properties_C14.v, Heap/Reassign.v) for every outcome: set(Id) on an element whose ID is '
+             'neither reserved nor silent, the undefine pass and reassignBlockFormats keep kind, parent, type, every '
+             'reference list, times, parameters, block times and payloads and the documents, and keep protected IDs; the '
+             'numbering loop for programmes, contents and objects gives next, next+1, ... in document order to exactly the '
+             'elements outside the reserved range and leaves the others unchanged. The composition for pack, stream, channel '
+             'and track formats and track UIDs, uniqueness and idempotence are decided by the differential run.',
+        design='8 C14'),
+    'C16': dict(
+        technique='Rocq proof of the block rewrite, of exact contiguity for decimal times and of the no-change-on-failure '
+                  'clause (partial for fractional arithmetic) + differential run on structured scenes with an exact-fraction oracle',
+        text='Proved (Props/Properties_C16.v, Heap/Durations.v) for all inputs: fix_blocks keeps number, IDs, rtimes and payloads '
+             'of the blocks and gives each block the difference to the next rtime (the last: to the total) or keeps an old '
+             'duration equal to it as a normalised fraction (representation kept); for decimal times the differences are '
+             'exact and the timeline is contiguous and ends at the total; any failure while the effective durations are '
+             'computed (ambiguity between objects or programmes, contradiction with the file length, nothing to derive a '
+             'length from) returns the state unchanged. Partial: contiguity as rational equality for fractional times '
+             'depends on the gcd normalisation, compared with libadm by the run only.',
+        design='8 C16'),
+    'C18': dict(
+        technique='Rocq proof that the route tracer model returns exactly the reference paths, each once + extracted-model/'
+                  'libadm differential run on generated graphs (routes, equality and hashes)',
+        text='Theorems (Props/Properties_C18.v, Heap/Routes.v): for every state, start element and fuel for which the '
+             'traversal returns, a route is returned if and only if it is a path programme -> content -> object (-> nested '
+             'objects) -> pack format (-> nested pack formats) -> channel format of the reference graph, elements in path '
+             'order; when no reference list holds an element twice no route is returned twice; the result does not depend '
+             'on spare fuel. Shared sub-graphs and empty branches are covered by the quantification. Equality and hashes of '
+             'route objects are checked on libadm by the run; termination on acyclic graphs rests on C06.',
+        design='8 C18'),
     'C03': dict(
         technique='Rocq proof of the ownership invariant over every history of the core API calls of the heap model (plans '
                   'regenerated from src/document.cpp) + extracted-model/libadm differential run with the well-formedness oracle',
